@@ -843,7 +843,7 @@ theorem C14_view_db_restore_sw (d : DNode) (pre : Bool) (dl : Option FsH) (name 
 the database service does not complete in this timestep (or the node is not ON), and also when it completes but the network
 delivers nothing (`dl = none`, nothing cleared). -/
 theorem C14_tickdb_eq_tick (d : DNode) (pre : Bool) (dl : Option FsH)
-    (h : d.n.powerPhase.scanPhase.dbFixCompletes = false ∨ (pre = false ∧ dl = none)) :
+    (h : d.n.powerPhase.scanPhase.redPhase.dbFixCompletes = false ∨ (pre = false ∧ dl = none)) :
     (d.apply (.tickDb pre dl)).n = d.n.tick := by
   simp only [DNode.apply, DNode.tickDb, Node.tick]
   split
@@ -857,8 +857,8 @@ theorem C14_tickdb_eq_tick (d : DNode) (pre : Bool) (dl : Option FsH)
 folder ticks the restore is a structural step (`StructOk`): no visible value is invented, and the database file keeps what it
 showed (`C14_view_db_restore`). The first and the last phase are those of `Node.tick`. -/
 theorem C14_tickdb_phases (d : DNode) (pre : Bool) (dl : Option FsH) (hon : d.n.powerPhase.power = .on)
-    (hfix : d.n.powerPhase.scanPhase.dbFixCompletes = true) :
-    let mid : DNode := { d with n := d.n.powerPhase.scanPhase.mapSws Sw.tick }
+    (hfix : d.n.powerPhase.scanPhase.redPhase.dbFixCompletes = true) :
+    let mid : DNode := { d with n := d.n.powerPhase.scanPhase.redPhase.mapSws Sw.tick }
     (d.apply (.tickDb pre dl)).n = (mid.dbRestore pre dl).n.mapFolders (fun F => if F.deleted then F else F.tick) ∧
     StructOk dl mid.n (mid.dbRestore pre dl).n := by
   refine ⟨?_, StructOk.dbRestore pre dl (StructOk.refl _ _)⟩
@@ -1116,7 +1116,7 @@ example :
 file and carries CORRUPT over; the service shows FIXING (scanned before its fix completed) and is GOOD; with nothing delivered the
 step is a plain `tick` -/
 example :
-    exDb.n.powerPhase.scanPhase.dbFixCompletes = true ∧
+    exDb.n.powerPhase.scanPhase.redPhase.dbFixCompletes = true ∧
     ((exDb.apply (.tickDb false (some .good))).n.sws.map (fun x => (x.actual, x.visible))) = [(.good, .fixing)] ∧
     (exDb.apply (.tickDb false (some .good))).n.seenFile "database" "database.db" = some .corrupt := by decide
 example :
